@@ -16,7 +16,8 @@ MANIFEST = {
     'text': 'All 15 operators and 32 element-wise functions are evaluated on every stretch-compatible combination of argument shapes '
             '(scalar, 1xn, mx1, mxn; m,n <= 3 quick / 4 thorough) with position-coded elements and one error/blank/text/logical element per argument, '
             'as array literals and as referenced ranges; every result shape <= 4x4 is stored into every destination shape <= 4x4; CONCATENATE/IFS/SWITCH are '
-            'called with 1..40 arguments with the non-scalar argument first, 31st..33rd and last.  Each array result is compared position by position with the '
+            'called with 1..40 arguments with the non-scalar argument first, 31st..33rd and last (thorough: every position; plus mixed literal/reference '
+            'spelling, four 4-argument calls and five more result producers).  Each array result is compared position by position with the '
             'implementation\'s own scalar result for the element tuple selected by the reference broadcasting / fitting rule; nothing sampled.',
     'note': 'Trusted: ref/lift.py (audited against the Excel-computed array formulas of test.xlsx); scalar semantics are taken from the implementation and judged by C02/C12; '
             'non-stretchable shape pairs and shapes beyond the bound are not decided.',
@@ -51,17 +52,16 @@ KINDS = dict(BIN, **UNA, **FUNCS)
 # thorough only: 4-argument calls (name/arity), explored with m,n <= 3 and the error variant only
 FUNCS4 = {'IFS/4': 'znzn', 'SWITCH/4': 'mmnn', 'REPLACE/4': 'tiit', 'SUBSTITUTE/4': 'toti'}
 ALLKINDS = dict(KINDS, **FUNCS4)
-
-
-def fname(key):
-    return key[:-2] if key.endswith('/4') else key
-
 # result producers of the fit space: (template, element kind, pad) - pad: f(#N/A) is also accepted beyond the result (ASSUMPTIONS)
 PRODUCERS = {'id': ('=%s', 'n', False), 'add0': ('=%s+0', 'n', False), 'iferror': ('=IFERROR(%s,0)', 'n', False),
              'isnumber': ('=ISNUMBER(%s)', 'n', True)}
 PRODUCERS_T = {'neg': ('=-%s', 'n', False), 'concat': ('=%s&""', 't', False), 'if': ('=IF(TRUE,%s,0)', 'n', False),
                'upper': ('=UPPER(%s)', 't', False), 'istext': ('=ISTEXT(%s)', 't', True)}
 ALLPROD = dict(PRODUCERS, **PRODUCERS_T)
+
+
+def fname(key):
+    return key[:-2] if key.endswith('/4') else key
 
 
 def elem(kind, k, i, j):
